@@ -6,7 +6,8 @@ is either > 255 or maps to 255 in the `b58` table, so the result is empty as for
 byte). -/
 namespace Pool.Dec
 
-def b58Alphabet : Bytes := "123456789ABCDEFGHJKLMNPQRSTUVWXYZabcdefghijkmnopqrstuvwxyz".toUTF8.toList
+def b58Alphabet : Bytes :=
+  "123456789ABCDEFGHJKLMNPQRSTUVWXYZabcdefghijkmnopqrstuvwxyz".toList.map (fun c => UInt8.ofNat c.toNat)
 
 /-- position of a character in the alphabet (the `b58` table; `none` = 255) -/
 def b58Index (c : UInt8) : Option Nat :=
@@ -45,12 +46,134 @@ def b58Digits : Bytes → Option (List Nat)
     | some d, some ds => some (d :: ds)
     | _, _ => none
 
+/-- value of a digit list (most significant digit first) in radix 58 -/
+def digitsValue (ds : List Nat) : Nat := ds.foldl (fun a d => a * 58 + d) 0
+
+/-! #### compiled fast paths (proved equal, installed with `@[csimp]`)
+
+`digitsValue` multiplies a growing big number once per digit and `natBytes` appends at the end; the
+compiled driver uses the 10-digit chunking of the Go code and an accumulator instead. -/
+
+/-- up to `k` digits folded into a machine-size total and the matching power of 58 -/
+def takeChunk : Nat → List Nat → Nat → Nat → Nat × Nat × List Nat
+  | 0, ds, t, p => (t, p, ds)
+  | _ + 1, [], t, p => (t, p, [])
+  | k + 1, d :: ds, t, p => takeChunk k ds (t * 58 + d) (p * 58)
+
+def digitsValueFastAux : Nat → List Nat → Nat → Nat
+  | 0, _, acc => acc
+  | _ + 1, [], acc => acc
+  | f + 1, d :: ds, acc =>
+    let r := takeChunk 9 ds d 58
+    digitsValueFastAux f r.2.2 (acc * r.2.1 + r.1)
+
+def digitsValueFast (ds : List Nat) : Nat := digitsValueFastAux ds.length ds 0
+
+theorem takeChunk_spec (k : Nat) : ∀ (ds : List Nat) (t p acc : Nat),
+    ds.foldl (fun a d => a * 58 + d) (acc * p + t)
+      = (takeChunk k ds t p).2.2.foldl (fun a d => a * 58 + d)
+          (acc * (takeChunk k ds t p).2.1 + (takeChunk k ds t p).1) := by
+  induction k with
+  | zero => intro ds t p acc; rfl
+  | succ k ih =>
+    intro ds t p acc
+    cases ds with
+    | nil => rfl
+    | cons d ds =>
+      simp only [takeChunk, List.foldl_cons]
+      rw [← ih ds (t * 58 + d) (p * 58) acc]
+      congr 1
+      rw [Nat.add_mul, Nat.mul_assoc]
+      omega
+
+theorem takeChunk_length (k : Nat) : ∀ (ds : List Nat) (t p : Nat), (takeChunk k ds t p).2.2.length ≤ ds.length := by
+  induction k with
+  | zero => intro ds t p; simp [takeChunk]
+  | succ k ih =>
+    intro ds t p
+    cases ds with
+    | nil => simp [takeChunk]
+    | cons d ds => simp only [takeChunk, List.length_cons]; have := ih ds (t * 58 + d) (p * 58); omega
+
+theorem digitsValueFastAux_spec : ∀ (f : Nat) (ds : List Nat) (acc : Nat), ds.length ≤ f →
+    digitsValueFastAux f ds acc = ds.foldl (fun a d => a * 58 + d) acc := by
+  intro f
+  induction f with
+  | zero => intro ds acc h; cases ds with
+    | nil => rfl
+    | cons d ds => simp at h
+  | succ f ih =>
+    intro ds acc h
+    cases ds with
+    | nil => rfl
+    | cons d ds =>
+      simp only [digitsValueFastAux, List.foldl_cons]
+      rw [ih _ _ (by have := takeChunk_length 9 ds d 58; simp only [List.length_cons] at h; omega)]
+      have := takeChunk_spec 9 ds d 58 acc
+      rw [← this]
+
+@[csimp] theorem digitsValue_eq_fast : @digitsValue = @digitsValueFast := by
+  funext ds
+  unfold digitsValue digitsValueFast
+  rw [digitsValueFastAux_spec _ _ _ (Nat.le_refl _)]
+
+def natBytesAcc : Nat → Nat → Bytes → Bytes
+  | 0, _, acc => acc
+  | fuel + 1, n, acc => if n = 0 then acc else natBytesAcc fuel (n / 256) (UInt8.ofNat (n % 256) :: acc)
+
+theorem natBytesAcc_spec : ∀ (fuel n : Nat) (acc : Bytes), natBytesAcc fuel n acc = natBytesF fuel n ++ acc := by
+  intro fuel
+  induction fuel with
+  | zero => intro n acc; rfl
+  | succ fuel ih =>
+    intro n acc
+    simp only [natBytesAcc, natBytesF]
+    split
+    · rfl
+    · rw [ih]; simp
+
+/-- any two fuels that cover the number give the same bytes -/
+theorem natBytesF_fuel : ∀ (f g n : Nat), n < 256 ^ f → n < 256 ^ g → natBytesF f n = natBytesF g n := by
+  intro f
+  induction f with
+  | zero =>
+    intro g n h _
+    have : n = 0 := by simp at h; omega
+    subst this
+    cases g <;> simp [natBytesF]
+  | succ f ih =>
+    intro g n hf hg
+    cases g with
+    | zero =>
+      have : n = 0 := by simp at hg; omega
+      subst this; simp [natBytesF]
+    | succ g =>
+      simp only [natBytesF]
+      split
+      · rfl
+      · rw [ih g (n / 256)
+          (Nat.div_lt_of_lt_mul (by rw [Nat.pow_succ] at hf; omega))
+          (Nat.div_lt_of_lt_mul (by rw [Nat.pow_succ] at hg; omega))]
+
+/-- fuel = bit length instead of the number itself (a 2000-bit fuel costs a big-number decrement per step) -/
+def natBytesFast (n : Nat) : Bytes := natBytesAcc (n.log2 + 1) n []
+
+@[csimp] theorem natBytes_eq_fast : @natBytes = @natBytesFast := by
+  funext n
+  unfold natBytes natBytesFast
+  rw [natBytesAcc_spec, List.append_nil]
+  apply natBytesF_fuel
+  · exact Nat.lt_of_lt_of_le (Nat.lt_pow_self (by omega)) (Nat.le_refl _)
+  · have h1 : n < 2 ^ (n.log2 + 1) := Nat.lt_log2_self
+    have h2 : 2 ^ (n.log2 + 1) ≤ 256 ^ (n.log2 + 1) := Nat.pow_le_pow_left (by omega) _
+    omega
+
 /-- base58.Decode; the final `make([]byte, flen)` is an allocation request. -/
 def b58Decode (maxAlloc : Nat) (s : Bytes) : Outcome Bytes :=
   match b58Digits s with
   | none => .ok []
   | some ds =>
-    let v := ds.foldl (fun a d => a * 58 + d) 0
+    let v := digitsValue ds
     let tmp := natBytes v
     let nz := leadingCount (b58Char 0) s
     match alloc maxAlloc (nz + tmp.length) with
